@@ -75,7 +75,8 @@ def gen_gene(rng, lo, hi, idx, seqname, single_isoform):
     }
 
 
-def gen_collection(rng, cidx, conditioned):
+def gen_collection(rng, cidx, conditioned, tagnums=None):
+    tagnums = tagnums if tagnums is not None else [rng.randint(0, 9999)]
     L = rng.choice([90, 180, 360])
     seqname = ["chrA", "chrB"][cidx]
     seq = specs.gen_seq(rng, L, with_n=(not conditioned) and rng.random() < 0.1)
@@ -94,8 +95,9 @@ def gen_collection(rng, cidx, conditioned):
         if gene is None:
             continue
         if conditioned:
-            # unique locus tags, and a symbol or id so that the writer can always derive /gene and /locus_tag
-            gene["locus_tag"] = gene["locus_tag"] or f"LT_{cidx}{g}"
+            # unique locus tags (numbered independently of record and position, so that tags of different records
+            # interleave in string order), and a symbol or id so that the writer can always derive /gene and /locus_tag
+            gene["locus_tag"] = f"LT_{tagnums.pop():04d}"
         genes.append(gene)
         for t in gene["transcripts"]:
             if t.get("cds_starts"):
@@ -122,9 +124,10 @@ def gen_case(seed, idx, tier="quick"):
     cfg = TIERS[tier]
     conditioned = rng.random() < 0.7
     colls = []
+    tagnums = rng.sample(range(10000), 64)
     for c in range(rng.choice([1, 1, 2])):
         for _ in range(10):
-            s = gen_collection(rng, c, conditioned)
+            s = gen_collection(rng, c, conditioned, tagnums)
             if s:
                 colls.append(s)
                 break
